@@ -17,6 +17,7 @@ import FordModel.Lemmas.UseHost
 import FordModel.UseBind
 import FordModel.Lemmas.UseBind
 import FordModel.Generated.C06
+import FordModel.UseExt
 namespace Ford.C06
 open Ford Ford.Use
 
@@ -681,6 +682,132 @@ theorem regex_sources_pinned :
     Generated.C06.renameReSrc = "(\\w+)\\s*=>\\s*(\\w+)" ∧
     Generated.C06.useReFlags = 34 ∧ Generated.C06.onlyReFlags = 34 ∧ Generated.C06.renameReFlags = 34 ∧
     Generated.C06.useReGroups = 2 ∧ Generated.C06.onlyReGroups = 0 ∧ Generated.C06.renameReGroups = 2 := by
+  decide
+
+/-! ### Round 6: USE association through the export tables of an external FORD project
+
+  Project A is documented with `externalize: true` (`dump_modules` / `obj2dict`), project B lists it under
+  `external:` (`load_external_modules` / `dict2obj`) and uses A's modules.  Model: FordModel/UseExt.lean
+  (`dumpTable`, `loadTable`, `externalize`, `loadModules`, `bindUseX`, `runX`, `twoStep`); the driver command
+  `c06.runx` runs `twoStep` against the real two projects. -/
+
+/-- **What a consumer loads from modules.json is the export table the exporting project computed**, minus the
+    entities that are external in the exporting project itself (`obj2dict` writes `null` for them, `dict2obj`
+    skips the entry): same keys (the LOCAL names under which the module exports, renamed re-exports
+    included), same entities, same order - for every table. -/
+theorem external_table_roundtrip_partial (ext : List Ent) (t : Table) :
+    loadTable (dumpTable ext t) = t.filter (fun p => !ext.contains p.2) := by
+  induction t with
+  | nil => rfl
+  | cons p t ih =>
+    show loadTable ((p.1, if ext.contains p.2 then none else some p.2) :: dumpTable ext t) = _
+    by_cases h : ext.contains p.2 = true
+    · rw [if_pos h]
+      show loadTable (dumpTable ext t) = _
+      rw [ih]; simp [List.filter_cons]; simpa using h
+    · rw [if_neg h]
+      show (p.1, p.2) :: loadTable (dumpTable ext t) = _
+      rw [ih]; simp [List.filter_cons]; simpa using h
+
+/-- **The export table a consumer loads is the export table the exporting project computed** when none of
+    its entities is external in the exporting project (one project boundary): nothing lost, nothing added,
+    nothing moved to another key. -/
+theorem external_table_roundtrip (t : Table) : loadTable (dumpTable [] t) = t := by
+  rw [external_table_roundtrip_partial]; simp
+
+/-- **Under a local name the loaded module holds the entity the exporting project put under that name** -
+    whatever the entity's own name is, and whatever other entities of that name the module owns: the
+    clause "resolve to the exporting module's entity under the local name" at the project boundary. -/
+theorem external_entry_follows_local_name (t : Table) (l : Str) :
+    aget (loadTable (dumpTable [] t)) l = aget t l := by
+  rw [external_table_roundtrip]
+
+/-- **Nothing inaccessible arrives through an external module**: whatever a USE statement `u` of the
+    consuming project obtains from the loaded module `m` of project `gA` (correlated in ANY order) is an
+    entity `m` exports by the standard's rules - across any chain of re-exporting modules inside `gA` -
+    under a local name the standard admits.  Same excluded classes as `tables_sound_partial`. -/
+theorem names_through_external_module_sound_partial (gA : List Scope) (k : Nat) (oA : List Str)
+    (hu : UniqueNames gA) (hb : NoBareRename gA) (hp : NoEffectivePrivate gA) (hs : NoShadow gA k)
+    (hq : NoProtectedOverPrivate gA) (m : Scope) (hm : m ∈ gA) (u : UseA)
+    (hbu : u.only = false → u.items = []) (p : Str × Ent)
+    (h : p ∈ getUsed u (loadTable (dumpTable [] (getTabs (run k gA oA) m.name).pub))) :
+    ∃ r, Admits u r p.1 ∧ Exports gA k m r p.2 := by
+  rw [external_table_roundtrip] at h
+  obtain ⟨r, hr, hc⟩ := mem_getUsed u _ p h
+  exact ⟨r, admits_of_code u r p.1 hbu hc, (sound_run gA k hu hb hp hs hq oA m hm).1 (r, p.2) hr⟩
+
+/-- **Everything accessible arrives through an external module**: an identifier `r` that module `m` of `gA`
+    exports by the standard's rules (directly or through any chain / diamond of re-export, `gA` correlated in
+    any topological order) and that the USE statement admits under `l` is a key of what the consumer
+    imports.  Same excluded classes as `tables_complete_partial`. -/
+theorem names_through_external_module_complete_partial (gA : List Scope) (k : Nat) (oA : List Str)
+    (hu : UniqueNames gA) (hb : NoBareRename gA) (hr : NoRepeatedRemote gA) (hl : LegalAccess gA)
+    (ht : isTopo gA [] oA = true) (m : Scope) (hm : m ∈ gA) (hin : m.name ∈ oA) (u : UseA)
+    (hbu : u.only = false → u.items = []) (hnu : u.only = true → (u.items.map UItem.remote).Nodup)
+    (r l : Str) (e : Ent) (he : Exports gA k m r e) (ha : Admits u r l) :
+    hasKey (getUsed u (loadTable (dumpTable [] (getTabs (run k gA oA) m.name).pub))) l := by
+  rw [external_table_roundtrip]
+  obtain ⟨e', hm', _⟩ := hasKey_mem _ _ ((complete_run gA k hu hb hr hl oA ht m hm hin).1 r e he)
+  exact hasKey_getUsed u _ r l e' hm' (code_of_admits u r l hbu hnu ha)
+
+/-- **A loaded module is never touched by the consuming project's correlation**: after the whole ranklist
+    loop of B (any order, contained procedures included) the entry of a loaded module `z` still holds the
+    export table it was loaded with, so every scope of B imports from exactly that table. -/
+theorem external_modules_are_frozen (k : Nat) (g : List Scope) (stubs : List ExtMod) (xs : List Loaded)
+    (ns : List Nested) (order : List Str) (z : Str) (x : Loaded)
+    (hx : xs.find? (fun y => y.name == z) = some x) (ho : z ∉ order)
+    (hn : ∀ y ∈ ns, y.scope.name ≠ z) :
+    getTabs (runX k g stubs xs ns order) z = { pub := x.pub, all := [] } := by
+  unfold runX runFrom
+  rw [getTabs_stepNFold_other _ _ k order _ z (Or.inl ho) (fun y hy _ => by
+    unfold bindNsX at hy
+    obtain ⟨y0, hy0, rfl⟩ := List.mem_map.1 hy
+    exact hn y0 hy0)]
+  generalize init k (bindGX g stubs xs) = st
+  induction xs with
+  | nil => simp at hx
+  | cons a xs ih =>
+    simp only [seed, List.foldr_cons]
+    rw [getTabs_aset]
+    by_cases ha : a.name = z
+    · simp [ha] at hx
+      subst hx; simp [ha]
+    · have : (a.name == z) = false := by simpa using ha
+      simp only [List.find?_cons, this] at hx
+      simp only [ha, if_false]
+      exact ih hx
+
+/-- Kernel-evaluated instance (the shape of a compatibility wrapper): module `o` owns the procedure `s`;
+    module `w` owns a procedure `s` of its own and passes `o`'s on as `x` (`use o, only: x => s`).  A program of
+    another project that loads both through modules.json and says `use w` gets `x ↦ o's s` and `s ↦ w's s`;
+    `use w, only: y => x` gets `y ↦ o's s`; the loaded table of `w` is the table `w` had. -/
+theorem renamed_reexport_through_external_project_witness :
+    let o : Scope := { name := ['o'], isMod := true, defPub := true, pubNames := [], privNames := [],
+                       decls := [{ name := ['s'], kind := 0, accs := [] }], uses := [] }
+    let w : Scope := { name := ['w'], isMod := true, defPub := true, pubNames := [], privNames := [],
+                       decls := [{ name := ['s'], kind := 0, accs := [] }],
+                       uses := [{ mod := ['o'], only := true, items := [.ren ['x'] ['s']] }] }
+    let p : Scope := { name := ['p'], isMod := false, defPub := true, pubNames := [], privNames := [], decls := [],
+                       uses := [{ mod := ['w'], only := false, items := [] }] }
+    let q : Scope := { name := ['q'], isMod := false, defPub := true, pubNames := [], privNames := [], decls := [],
+                       uses := [{ mod := ['W'], only := true, items := [.ren ['y'] ['x']] }] }
+    let st := twoStep 0 [o, w] [['o'], ['w']] [p, q] [{ name := ['m', 'p', 'i'] }] [['p'], ['q']]
+    (getTabs st ['p']).all = [(['s'], (['w'], ['s'])), (['x'], (['o'], ['s']))] ∧
+    (getTabs st ['q']).all = [(['y'], (['o'], ['s']))] ∧
+    (getTabs st ['w']).pub = (getTabs (run 0 [o, w] [['o'], ['w']]) ['w']).pub := by
+  decide
+
+/-- The parts of `external_project` the model mirrors are, in the working tree, the ones it was written for
+    (observed by translate/c06.py on stand-in objects through the real `obj2dict` / `dict2obj`): the four
+    export tables are the dict-valued attributes of a module that are written and read back; an entry is
+    stored under its key and built from its own item (also when the module owns an entity with the item's
+    name); an entity that is external in the exporting project is written as `null` and skipped. -/
+theorem external_tables_are_source_tables :
+    Generated.C06.externalExportTables =
+      [['p', 'u', 'b', '_', 'a', 'b', 's', 'i', 'n', 't', 's'], ['p', 'u', 'b', '_', 'p', 'r', 'o', 'c', 's'],
+       ['p', 'u', 'b', '_', 't', 'y', 'p', 'e', 's'], ['p', 'u', 'b', '_', 'v', 'a', 'r', 's']] ∧
+    Generated.C06.externalEntryFromItsItem = true ∧
+    Generated.C06.externalOfExternalDropped = true := by
   decide
 
 end Ford.C06
